@@ -548,19 +548,21 @@ func initIterableFiniteBase() {
 				)
 			}
 			var result value.ArrayListOfValue
+			if count == 0 {
+				return value.Ref(&result), value.Undefined
+			}
 
 			for elem, err := range Iterate(vm, self) {
 				if !err.IsUndefined() {
 					return value.Undefined, err
 				}
 
-				if count <= 0 {
-					break
-				}
-
 				count--
 				result.Append(elem)
-				continue
+				if count <= 0 {
+					// do not pull an element that will not be taken
+					break
+				}
 			}
 
 			return value.Ref(&result), value.Undefined
